@@ -34,6 +34,7 @@ type c08Known struct {
 	// (B_1 - hash_to_curve(x_1) = B_2 - hash_to_curve(x_2))
 	secretOfR map[string]string
 	shared    []string
+	bs        map[string]bool // blinded messages seen in request bodies
 }
 
 func (k *c08Known) addR(r, where string) {
@@ -151,6 +152,22 @@ func c08Inspect(r *core.Run, k *c08Known, rec *inproc.Record, sig string, tail [
 	var keys []string
 	var vals []jsonHit
 	walkJSON(root, "$", &keys, &vals)
+	// the blinded messages seen so far; an input whose secret is itself the blinding factor of one of them
+	// (B_ = hash_to_curve(secret) + secret*G) tells the mint which signature the proof comes from
+	for _, h := range vals {
+		if h.path == "$.outputs[].B_" {
+			k.bs[strings.ToLower(h.value)] = true
+		}
+	}
+	for _, h := range vals {
+		if h.path == "$.inputs[].secret" && len(h.value) == 64 && hexRun.FindString(strings.ToLower(h.value)) == strings.ToLower(h.value) {
+			if x, err := refcrypto.ScalarHex(h.value); err == nil && x.Sign() > 0 {
+				if p := refcrypto.Add(refcrypto.Y(h.value), refcrypto.BaseMul(x)).Hex(); k.bs[p] {
+					r.Violate("input-secret-is-a-blinding-factor:"+rec.Path, fmt.Sprintf("a request to %s spends a proof whose secret is the blinding factor of a blinded message the wallet had signed earlier (B_ = hash_to_curve(secret) + secret*G)", endpoint), sig, wit)
+				}
+			}
+		}
+	}
 	for _, kk := range keys {
 		if strings.HasSuffix(kk, ".r") || strings.HasSuffix(strings.ToLower(kk), ".r") {
 			r.Violate("json-key-r-in-request:"+rec.Path, fmt.Sprintf("a request body to %s has a JSON key r at %s", endpoint, kk), sig, wit)
@@ -196,7 +213,7 @@ func runC08(r *core.Run) {
 			return
 		}
 		defer w.Close()
-		known := &c08Known{rs: map[string]string{}, secrets: map[string]string{}, derived: map[string]uint32{}}
+		known := &c08Known{rs: map[string]string{}, secrets: map[string]string{}, derived: map[string]uint32{}, bs: map[string]bool{}}
 		noDLEQ := h%4 == 3
 		hosts := map[string]bool{}
 		for _, m := range w.Mints {
@@ -309,6 +326,8 @@ func runC08(r *core.Run) {
 		}
 		if r.Violations() < 10 {
 			s.Directed() // floor: every kind of request at least once per history
+			inspect()
+			s.DirectedUnknownMint()
 			inspect()
 		}
 		known.mu.Lock()
